@@ -208,3 +208,28 @@ def first_select_race(rng):
         db = order[c % len(order)]
         lines.append("C %d %s" % (c, core.hx(gen.enc_cmd([b"SELECT", b"%d" % db]) + gen.enc_cmd([b"GET", b"own%d" % c]))))
     return lines
+
+
+def halfclose_session(rng):
+    """pipelines of 50-400 commands written on a fresh TCP connection whose sending side is closed at once (as `printf ... | nc -N` does), the client reading to the
+    end of the stream: every command written is executed and answered, in order; a second connection then reads the state (added after the seeded change
+    C02-hangup-cancels-queued-commands: the end of the client's stream cancelled the handler while decoded commands were still queued)"""
+    lines = ["S 16"]
+    cid = 50
+    for _ in range(rng.randint(2, 4)):
+        n = rng.choice([50, 120, 300, 400])
+        payload = b""
+        for i in range(n):
+            x = rng.random()
+            if x < 0.6:
+                payload += gen.enc_cmd([b"INCR", b"hc"])
+            elif x < 0.8:
+                payload += gen.enc_cmd([b"APPEND", b"hs", b"x"])
+            elif x < 0.9:
+                payload += gen.enc_cmd([b"SET", b"k%d" % (i % 7), gen.bin_arg(rng)])
+            else:
+                payload += gen.enc_cmd([b"RPUSH", b"hl", b"e%d" % i])
+        cid += 1
+        lines.append("HC %d %s" % (cid, core.hx(payload)))
+        lines.append("C 1 %s" % core.hx(gen.enc_cmd([b"GET", b"hc"]) + gen.enc_cmd([b"STRLEN", b"hs"]) + gen.enc_cmd([b"LLEN", b"hl"])))
+    return lines
